@@ -29,6 +29,8 @@ func c09alphabet() []dop {
 	add := func(name string, bulk bool, f func(n *dnode)) { ops = append(ops, dop{name, f, bulk}) }
 	add("sess.Create(s1)", false, func(n *dnode) { n.st.SessionMetadatas().Create("s1", "c1", 1, nil, "m") })
 	add("sess.Create(s2)", false, func(n *dnode) { n.st.SessionMetadatas().Create("s2", "", 1, pub("w", "bye"), "m") })
+	// a second session of the SAME client (a takeover creates it right after removing the first): records are per session
+	add("sess.Create(s3,client c1)", false, func(n *dnode) { n.st.SessionMetadatas().Create("s3", "c1", 1, nil, "m") })
 	add("sess.Delete(s1)", false, func(n *dnode) { n.st.SessionMetadatas().Delete("s1") })
 	add("sess.Delete(s2)", false, func(n *dnode) { n.st.SessionMetadatas().Delete("s2") })
 	add("sess.Delete(s3)", false, func(n *dnode) { n.st.SessionMetadatas().Delete("s3") })
